@@ -1,5 +1,5 @@
 """property id -> (spec, harness group)"""
-from . import props_alg, props_alias, props_lin, props_est, props_eig, props_sim
+from . import props_alg, props_alias, props_lin, props_est, props_eig, props_sim, props_tm
 
 SPECS = {}
 for pid, spec in props_alg.SPECS.items():
@@ -14,4 +14,6 @@ for pid, spec in props_eig.SPECS.items():
     SPECS[pid] = (spec, props_eig.GROUP)
 for pid, spec in props_sim.SPECS.items():
     SPECS[pid] = (spec, props_sim.GROUP)
+for pid, spec in props_tm.SPECS.items():
+    SPECS[pid] = (spec, props_tm.GROUP)
 NOT_CLAIMED = {}
